@@ -289,6 +289,12 @@ def jobs(tier):
                     out.append(Job(f"cusum-drifted-b{burn}-{direction}-s{since}-o{older}", "checks.c02:body_cusum_drifted",
                                    {"burn": burn, "direction": direction, "since": since, "older": older},
                                    expect=("compared",)))
+    # documented carry-over when the last burn_in observations are all equal: mean = that level, deviation exactly 0
+    # (divisions by it are havoc'd) - the harness body is shared with C04
+    for burn in (2, 3):
+        out.append(Job(f"cusum-drifted-constant-window-b{burn}", "checks.c04:body_cusum_reestimate_constant",
+                       {"burn": burn, "since": burn + 1}, expect=("constant-window",),
+                       opts={"div_policy": "havoc_zero", "validate": 1}))
     # histories
     NL = 8 if q else 11
     for det, cfgs in (("DDM", [{"n_threshold": 1}, {"n_threshold": 2}]), ("EDDM", [{"n_threshold": 1}, {"n_threshold": 2}]),
